@@ -1032,4 +1032,31 @@ theorem update_fault_loses_remaining_groups :
 
 example : (run "u" "start g:* foo" [.ok (.str "3.0"), .ok (.results []), .ok .unit]).p.calls.map renderCall =
     ["getVersion()", "startProcessGroup(g)", "startProcess(foo)"] := by decide
+
+/-! ## the server state "wrong API version" -/
+
+/-- **wrong_api_version_refused.**  Whatever version string the daemon reports other than the client's own — an older
+    one, a newer one, one that compares lower or higher as a string — `upcheck` prints the mismatch line that names it,
+    sets the exit status NOT_INSTALLED (non-zero) and does NOT continue with the action (`onUp` is not run): what goes on
+    (`onDown`: the action's early return) starts from a state in which exactly the one `getVersion` request was made. -/
+theorem wrong_api_version_refused (api : String) (h : api ≠ API_VERSION) (onUp onDown : S → S) (s : S)
+    (rest : List Ans) (hs : s.err = none) (hscript : s.p.script = .ok (.str api) :: rest) :
+    upcheck onUp onDown s =
+      onDown ({ s with p := { s.p with script := rest, calls := s.p.calls ++ [⟨"getVersion", [], .ok (.str api)⟩] } }
+        |> out (msgWrongVersion api) |> setExit LSBInit_NOT_INSTALLED) := by
+  simp [upcheck, rpc, guard, hs, hscript, upcheck_g0, upcheck_a2, h]
+
+/-- and the right version goes on with the action -/
+theorem right_api_version_accepted (onUp onDown : S → S) (s : S) (rest : List Ans) (hs : s.err = none)
+    (hscript : s.p.script = .ok (.str API_VERSION) :: rest) :
+    upcheck onUp onDown s =
+      onUp { s with p := { s.p with script := rest, calls := s.p.calls ++ [⟨"getVersion", [], .ok (.str API_VERSION)⟩] } } := by
+  simp [upcheck, rpc, guard, hs, hscript, upcheck_g0]
+
+example : LSBInit_NOT_INSTALLED ≠ 0 := by decide
+-- a newer daemon, and one whose version is lower as a string although newer as a number: no request beyond getVersion
+example : (run "u" "stop foo" [.ok (.str "3.1"), .ok .unit]).p.calls.map renderCall = ["getVersion()"] ∧
+    (run "u" "stop foo" [.ok (.str "3.1"), .ok .unit]).p.exit = 5 := by decide
+example : (run "u" "stop foo" [.ok (.str "10.0"), .ok .unit]).p.calls.map renderCall = ["getVersion()"] ∧
+    (run "u" "pid" [.ok (.str "2.0"), .ok (.int 1)]).p.calls.map renderCall = ["getVersion()"] := by decide
 end Sv.Props.C20
